@@ -212,6 +212,8 @@ def _run_case(hname, faults, zipmode=False, hide=False):
             r = w.serve(data, tls)
             if r.internal_error:
                 bad.append((p, "error", r.describe_error()))
+                if isinstance(r.escaped, rig.RequestTimeout):
+                    break  # a hanging request: the other protocols would hang the same way
                 continue
             try:
                 got = _entries(p, r.out)
@@ -283,7 +285,12 @@ def _run_zip(i):
 
 def _shard(shard, seed, tier):
     part = core.Partial()
+    rig.REQUEST_TIME_LIMIT = 3
+    hangs = 0
     for item in shard:
+        if hangs >= 3:
+            part.extra.setdefault("capped", []).append("shard aborted after %d hanging requests" % hangs)
+            break
         if item[0] == "zip":
             bad = _run_zip(item[1])
             label = "zip|%d" % item[1]
@@ -299,6 +306,8 @@ def _shard(shard, seed, tier):
         part.state(label)
         part.outcome(label.split("|")[0], tuple(sorted(set(b[1] for b in bad))), item[2][0][0] if item[0] == "dir" else "zip")
         part.sample({"case": label, "protocols": PROTOS}, limit=2)
+        if any("RequestTimeout" in b[2] for b in bad):
+            hangs += 1
         seen = set()
         for p, cls, det in bad:
             k = "%s|%s|%s" % (label, p, cls)
@@ -348,7 +357,9 @@ def run(ck):
         import random
 
         random.Random(ck.seed).shuffle(cases)
-    ck.pmap(_shard, core.chunks(cases, core.NPROC * 2))
+    pr = ck.pmap(_shard, core.chunks(cases, core.NPROC * 2))
+    if pr.extra.get("capped"):
+        ck.caps.append("%d shard(s) aborted early after hanging requests" % len(pr.extra["capped"]))
     ck.rule = ("fault sets = singles (%d kinds x 3 sort positions) and pairs of faulty entries planted in a 4-entry directory, x handler lists {UMN (shipped), plain DirHandler}, x %d protocols; "
                "plus %d ZIP archives with an unservable member; distinct = (handler list, verdict classes, first fault kind)" % (len(KINDS), len(PROTOS), len(ZIP_MEMBERS)))
     ck.bounds = {"fault_sets": len(cases), "protocols": len(PROTOS)}
